@@ -143,3 +143,32 @@ Theorem C12_write_ref_header : forall h n, wf_header h -> 0 <= n ->
       end.
 Proof. exact write_ref_header. Qed.
 Print Assumptions C12_write_ref_header.
+
+(* ---- the parsers above are the source ----
+   Every parser of data_pes.go that the theorems of this file mention (parse_pts_or_dts, parse_escr, parse_dsm_trick_mode,
+   parse_pes_optional_header, parse_pes_header, parse_pes_data / parse_pes_data_bytes) is equal, as a computation in the
+   iterator monad and on every iterator whose bytes are in 0..255, to the definition that go/gen (itermonad.go) translates
+   from the CURRENT source of parsePTSOrDTS / parseESCR / parseDSMTrickMode / parsePESOptionalHeader / parsePESHeader /
+   parsePESData into Gen/ParseGen.v.  An edit of one of these Go functions regenerates Gen/ParseGen.v and this theorem
+   (Proofs/ParseGenPes.v, Proofs/ParseGenEq.v) stops checking. *)
+Require Import Gen.ParseGen Proofs.ParseGenBits Proofs.ParseGenEq Proofs.ParseGenPes.
+Theorem C12_parsers_are_source :
+  same_on_bytes parse_pts_or_dts ParseGen.parsePTSOrDTS /\
+  same_on_bytes parse_escr ParseGen.parseESCR /\
+  (forall b, byte_ok b -> parse_dsm_trick_mode b = ParseGen.parseDSMTrickMode b) /\
+  same_on_bytes parse_pes_optional_header ParseGen.parsePESOptionalHeader /\
+  same_on_bytes parse_pes_header ParseGen.parsePESHeader /\
+  same_on_bytes parse_pes_data ParseGen.parsePESData /\
+  (forall bs, bytes_ok bs -> parse_pes_data_bytes bs = run_iter ParseGen.parsePESData bs).
+Proof. exact pes_parsers_are_source. Qed.
+Print Assumptions C12_parsers_are_source.
+(* the translated parsePESData runs: a video PES packet with PTS and DTS and three payload bytes *)
+Example C12_parsers_are_source_inhabited :
+  bytes_ok [0; 0; 1; 224; 0; 0; 128; 192; 10; 49; 0; 1; 0; 1; 17; 0; 1; 0; 1; 1; 2; 3] /\
+  exists d, run_iter ParseGen.parsePESData [0; 0; 1; 224; 0; 0; 128; 192; 10; 49; 0; 1; 0; 1; 17; 0; 1; 0; 1; 1; 2; 3] = Ok d /\
+            parse_pes_data_bytes [0; 0; 1; 224; 0; 0; 128; 192; 10; 49; 0; 1; 0; 1; 17; 0; 1; 0; 1; 1; 2; 3] = Ok d /\
+            PESData_Data d = [1; 2; 3].
+Proof.
+  split; [apply bytes_okb_ok; vm_compute; reflexivity|].
+  eexists. split; [vm_compute; reflexivity|]. split; [vm_compute; reflexivity|]. reflexivity.
+Qed.
